@@ -282,16 +282,26 @@ func runIOCase(c ioCase) (obs string, mon []string) {
 	return
 }
 
+const ioHelpersRule = "(A) CopyDataWithContext / CopyNWithContext / ReadAtMost over scripted streams: source length in {0,1,2,511..513,1000,32767..32769,65536,100000,2^20} or random < 70000; " +
+	"chunk script (sizes 0..512 or 0..40000, zero-length reads), source error at byte k, context cancelled after the k-th stream operation (k=0: before the call), sink accepting m bytes then failing, " +
+	"sink with / without ReadFrom, n / max negative, 0, below, equal, above the length. non-trivial = at least one of script / failure / cancellation / limit / sink failure is active; distinct = the case line. "
+
 func ioHelpersMain(args []string) {
-	o := hx.ParseOpts(args)
-	rep := hx.NewReport("CopyDataWithContext / CopyNWithContext / ReadAtMost over scripted streams: source length in {0,1,2,511..513,1000,32767..32769,65536,100000,2^20} or random < 70000; " +
-		"chunk script (sizes 0..512 or 0..40000, zero-length reads), source error at byte k, context cancelled after the k-th stream operation (k=0: before the call), sink accepting m bytes then failing, " +
-		"sink with / without ReadFrom, n / max negative, 0, below, equal, above the length. non-trivial = at least one of script / failure / cancellation / limit / sink failure is active; distinct = the case line.")
+	o := hx.ParseOpts(args, "facts")
+	rep := hx.NewReport(ioHelpersRule)
 	drv, err := hx.StartDriver(o.Driver)
 	if err != nil {
 		fmt.Println("driver:", err)
 	}
 	defer drv.Close()
+	ioHelpersRun(o, rep, drv)
+	rep.Write(o.Report, drv)
+	if len(rep.Failures) > 0 {
+		fmt.Printf("failures: %d\n", len(rep.Failures))
+	}
+}
+
+func ioHelpersRun(o *hx.Opts, rep *hx.Report, drv *hx.Driver) {
 	rnd := hx.NewRand(o.Seed)
 	n := 3000
 	if o.Thorough() {
@@ -392,6 +402,11 @@ func ioHelpersMain(args []string) {
 		for _, m := range mon {
 			rep.Fail(hx.Failure{Kind: "impl-violates-property", Key: strings.SplitN(m, ":", 2)[0], Case: l, Expected: "prefix / count / no-read-after-cancel", Observed: m + " | " + ob})
 		}
+		if c.length > 40000 {
+			// the list-based Lean model is quadratic in the source length: large sources are judged by the monitors only
+			rep.Hist("monitors-only:source-above-40000-bytes")
+			continue
+		}
 		lines = append(lines, l)
 		obs = append(obs, ob)
 	}
@@ -415,9 +430,5 @@ func ioHelpersMain(args []string) {
 				rep.Sample(map[string]string{"line": lines[i][:min(len(lines[i]), 200)], "count err outLen reads lateReads ops": a})
 			}
 		}
-	}
-	rep.Write(o.Report, drv)
-	if len(rep.Failures) > 0 {
-		fmt.Printf("failures: %d\n", len(rep.Failures))
 	}
 }
